@@ -30,6 +30,7 @@ from deepproto.proto.resource.v1.resource_pb2 import Resource
 from deepproto.proto.tracepoint.v1.tracepoint_pb2 import MetricType
 
 from .grpc_service import GRPCService  # noqa: F401
+from .. import logging
 from ..api.tracepoint.tracepoint_config import LabelExpression, MetricDefinition
 from ..api.tracepoint.trigger import build_trigger, Trigger
 
@@ -120,8 +121,16 @@ def convert_response(response) -> List[Trigger]:
     all_triggers: Dict[str, Trigger] = {}
     for r in response:
         # from the incoming tracepoints create a Trigger with actions
-        trigger = build_trigger(r.ID, r.path, r.line_number, dict(r.args), [w for w in r.watches],
-                                __convert_metric_definition(r.metrics))
+        try:
+            trigger = build_trigger(r.ID, r.path, r.line_number, dict(r.args), [w for w in r.watches],
+                                    __convert_metric_definition(r.metrics))
+        except Exception:
+            logging.exception("Cannot process tracepoint %s, skipping it.", r.ID)
+            continue
+        if trigger is None:
+            # we cannot understand this tracepoint (e.g. an unknown stage), this must not cost us the other tracepoints
+            logging.warning("Cannot process tracepoint %s, skipping it.", r.ID)
+            continue
         location_id = trigger.id
         # if we already have a trigger for this location then merge the new actions into it
         if location_id in all_triggers:
